@@ -56,6 +56,8 @@ def _evaluate(e, env, bits=64):
             base = None
         if isinstance(base, dict) and e[2] in base:
             return base[e[2]]
+        if isinstance(base, tuple) and str(e[2]).isdigit() and (not base or base[0] not in ("$variant", "$closure", "$fnref", "$list")) and int(e[2]) < len(base):
+            return base[int(e[2])]
     if k == "fnref":
         return ("$fnref", e[1])
     if k == "static":
@@ -236,6 +238,16 @@ def _evaluate(e, env, bits=64):
                         sub[nm] = (a, env)
                         cenv["@subst"] = sub
             return evaluate(cache[e[1]], cenv, bits)
+        if name in ("index", "index_mut") and len(e[2]) == 2:
+            try:
+                base_ = evaluate(e[2][0], env, bits)
+            except Uneval:
+                base_ = None
+            if isinstance(base_, list):
+                i_ = evaluate(e[2][1], env, bits)
+                if isinstance(i_, int) and 0 <= i_ < len(base_):
+                    return base_[i_]
+                raise Uneval("index out of range")
         args = [evaluate(a, env, bits) for a in e[2]]
         if name == "min":
             return min(args)
